@@ -310,16 +310,25 @@ fn put_term(v: &mut Vec<u8>, t: &OwnedTerm, pos: &HashMap<String, u8>) {
     }
 }
 
-struct Sender {
-    slots: HashMap<(u8, u8), String>,
-    salt: u64,
+pub(crate) struct Sender {
+    pub(crate) slots: HashMap<(u8, u8), String>,
+    pub(crate) salt: u64,
     /// how many internal indices / segments the hash may select (small numbers force collisions and overwrites)
-    idx_space: u64,
-    seg_space: u64,
+    pub(crate) idx_space: u64,
+    pub(crate) seg_space: u64,
+    /// atoms with an assigned slot (the sweeps place one atom in every slot, boundary indices included)
+    pub(crate) fixed: HashMap<String, (u8, u8)>,
 }
 
 impl Sender {
+    pub(crate) fn new(salt: u64, idx_space: u64, seg_space: u64) -> Self {
+        Sender { slots: HashMap::new(), salt, idx_space, seg_space, fixed: HashMap::new() }
+    }
+
     fn slot_of(&self, a: &str) -> (u8, u8) {
+        if let Some(s) = self.fixed.get(a) {
+            return *s;
+        }
         let mut h = 0xcbf29ce484222325u64 ^ self.salt;
         for b in a.as_bytes() {
             h = (h ^ *b as u64).wrapping_mul(0x100000001b3);
@@ -328,7 +337,7 @@ impl Sender {
     }
 
     /// one header-mode message for these terms; returns the bytes and whether any reference was `old`
-    fn send(&mut self, r: &mut Rng, terms: &[OwnedTerm], stats: &mut Vec<&'static str>) -> Vec<u8> {
+    pub(crate) fn send(&mut self, r: &mut Rng, terms: &[OwnedTerm], stats: &mut Vec<&'static str>) -> Vec<u8> {
         let mut atoms = vec![];
         terms.iter().for_each(|t| collect(t, &mut atoms));
         r.shuffle(&mut atoms);
@@ -432,7 +441,7 @@ fn history(ctx: &mut Ctx, tag: &str, len: usize, idx_space: u64, seg_space: u64,
         pool.push(atom_of_len(1, *ctx.rng.pick(&[255usize, 256, 300, 1000])));
     }
     let cfg = Cfg { max_depth: 3, wf: true, maps: true, local_ids: false, huge: false, funs: true };
-    let mut sender = Sender { slots: HashMap::new(), salt: ctx.rng.next(), idx_space, seg_space };
+    let mut sender = Sender::new(ctx.rng.next(), idx_space, seg_space);
     let mut cache = AtomCache::new();
     let mut msgs = vec![];
     let mut results = vec![];
@@ -513,6 +522,74 @@ fn history(ctx: &mut Ctx, tag: &str, len: usize, idx_space: u64, seg_space: u64,
         // the independent reader agrees that this history means these terms (checks the sender model against the spec)
         ctx.prop("c14-sender-vs-spec", &format!("c14hist {} {} {}", orc, msgs.join(","), intended.join(";")), "ok");
     }
+}
+
+
+/// the atom a sweep places in slot (segment, index) in its `round`-th pass over the slots
+pub(crate) fn sweep_atom(round: usize, slot: (u8, u8)) -> String {
+    format!("{}{}_{}", ["s", "t", "u"][round % 3], slot.0, slot.1)
+}
+
+/// the messages of one cache sweep as term lists: pass 0 places a distinct atom in every given slot (`chunk` slots per
+/// message), pass 1 refers to every slot again in another order (existing entries), pass 2 overwrites every slot with
+/// another atom, pass 3 refers to those. Two slots the receiver confuses, whichever they are, resolve to the wrong atom
+/// in pass 1 or 3.
+pub(crate) fn sweep_messages(r: &mut Rng, sender: &mut Sender, slots: &[(u8, u8)], chunk: usize) -> Vec<Vec<OwnedTerm>> {
+    let mut out = vec![];
+    for pass in 0..4 {
+        let round = pass / 2;
+        let mut order: Vec<(u8, u8)> = slots.to_vec();
+        if pass % 2 == 1 {
+            r.shuffle(&mut order);
+        } else if pass == 2 {
+            order.reverse();
+        }
+        for s in &order {
+            sender.fixed.insert(sweep_atom(round, *s), *s);
+        }
+        for c in order.chunks(chunk) {
+            let atoms: Vec<OwnedTerm> = c.iter().map(|s| OwnedTerm::Atom(Atom::new(sweep_atom(round, *s).as_str()))).collect();
+            let control = OwnedTerm::Tuple(vec![
+                OwnedTerm::Integer(6),
+                OwnedTerm::Pid(ExternalPid::new(Atom::new("x@h"), 5, 0, 1)),
+                OwnedTerm::Atom(Atom::new("")),
+                atoms[0].clone(),
+            ]);
+            out.push(vec![control, OwnedTerm::Tuple(atoms)]);
+        }
+    }
+    out
+}
+
+/// E. one cache sweep through `decode_with_atom_cache`: tie, spec oracle, resolution check
+fn sweep(ctx: &mut Ctx, tag: &str, slots: &[(u8, u8)], chunk: usize) {
+    let mut sender = Sender::new(ctx.rng.next(), 256, 8);
+    let mut cache = AtomCache::new();
+    let (mut msgs, mut results, mut intended, mut stats) = (vec![], vec![], vec![], vec![]);
+    for (k, terms) in sweep_messages(&mut ctx.rng, &mut sender, slots, chunk).into_iter().enumerate() {
+        let Some(want): Option<Vec<OwnedTerm>> = terms.iter().map(norm).collect() else { continue };
+        let bytes = sender.send(&mut ctx.rng, &terms, &mut stats);
+        let (s, _) = dec_pair(&mut cache, &bytes);
+        let exp = format!("ok {} {}", term_text(&want[0]), term_text(&want[1]));
+        if s != exp {
+            ctx.fail("c14-history-misresolved", &format!("sweep message {}: sender meant {} ; library read {} ; history {}", k + 1,
+                &exp[..exp.len().min(300)], &s[..s.len().min(300)],
+                msgs.iter().chain(std::iter::once(&hex(&bytes))).cloned().collect::<Vec<_>>().join(",")));
+            ctx.count("sweep_misresolved");
+            return;
+        }
+        intended.push(want.iter().map(term_text).collect::<Vec<_>>().join("&"));
+        msgs.push(hex(&bytes));
+        results.push(s);
+    }
+    for s in stats {
+        ctx.count(s);
+    }
+    ctx.count("sweeps");
+    ctx.add("sweep_slots", slots.len() as u64);
+    ctx.add("history_messages", msgs.len() as u64);
+    ctx.tie(tag, &format!("c14seq - {}", msgs.join(",")), &results.join(";"));
+    ctx.prop("c14-sender-vs-spec", &format!("c14hist - {} {}", msgs.join(","), intended.join(";")), "ok");
 }
 
 /// minimised past failures (fixed defects): replayed first on every run
@@ -597,6 +674,19 @@ pub fn run(ctx: &mut Ctx) {
         let (idx_space, seg_space) = *ctx.rng.pick(&[(256u64, 8u64), (4, 8), (2, 2), (1, 1), (256, 1), (3, 8)]);
         let len = if i % 10 == 8 { len.max(3) } else { len };
         history(ctx, "hist", len, idx_space, seg_space, match i % 10 { 9 => 1, 8 => 2, _ => 0 });
+    }
+    // E. cache sweeps: every one of the 2048 slots holds its own atom, is referred to, overwritten and referred to again;
+    //    and the boundary indices of every segment in small messages
+    let all: Vec<(u8, u8)> = (0..=255u8).flat_map(|i| (0..8u8).map(move |s| (s, i))).collect();
+    sweep(ctx, "sweep", &all, 250);
+    let edge: Vec<(u8, u8)> = (0..8u8).flat_map(|s| [0u8, 1, 254, 255].into_iter().map(move |i| (s, i))).collect();
+    sweep(ctx, "sweep-edge", &edge, 5);
+    for _ in 0..ctx.n(0, 6) {
+        let mut sl = all.clone();
+        ctx.rng.shuffle(&mut sl);
+        let k = 64 + ctx.rng.below(1900) as usize;
+        let chunk = 1 + ctx.rng.below(255) as usize;
+        sweep(ctx, "sweep", &sl[..k], chunk);
     }
     // D. malformed and truncated headers, each followed by a well-formed message on the same cache
     let good = erltf::encode_with_dist_header_multi(&[&OwnedTerm::Tuple(vec![OwnedTerm::Integer(2), OwnedTerm::Atom(Atom::new("ok"))]), &OwnedTerm::Atom(Atom::new("rex"))]).unwrap();
